@@ -72,6 +72,8 @@ def split_decisions(ds):
 def to_model(case, obs):
     """Model event list (Coq syntax) + index map for comparing observations.
     Returns (coq_term, probes) with probes = list of (event index, kind, key)."""
+    if case["cfg"].get("tcp"):
+        return None, [], []     # TCP carriers: oracle-only (segments, SYN, FIN, RST are not Link-model events)
     cfg = case["cfg"]
     n = cfg["nhosts"]
     tick = cfg["tick_us"] * 1000
@@ -199,6 +201,10 @@ def timeline(case, obs):
                     g = groups[gi] if gi < len(groups) else {"delay": None, "rand": False, "repair": False}
                     gi += 1
                     tl.append(("send", h, cmd[1], cmd[2], k, (k + 1) * tick, g["delay"], g["rand"], g["repair"]))
+                elif cmd[0] == "tcp_connect":
+                    tl.append(("tcp_connect", h, cmd[1], cmd[2], k))
+                elif cmd[0] == "tcp_write":
+                    tl.append(("tcp_write", h, cmd[1], cmd[2], k))
                 else:
                     for a, b in for_pairs(sel_hosts(cmd[1], n), sel_hosts(cmd[2], n)):
                         tl.append(("call", cmd[0], a, b, (k + 1) * tick))
@@ -428,6 +434,111 @@ def gen_latency_script(rng, nhosts=None):
         steps.append({"ctl": [], "hosts": {}})
     steps[-1]["ctl"].append(["links"])
     return {"cfg": cfg, "steps": steps, "flavour": "latency"}
+
+
+def gen_tcp_script(rng, flavour):
+    """TCP carriers (oracle-only): connections set up first, then 8-byte frames written while
+    partitions (flavour 'partition') or holds (flavour 'hold') come and go."""
+    cfg = base_cfg(rng, nhosts=rng.choice([2, 2, 3]), fail=0.0 if flavour == "hold" else rng.choice([0.0, 0.0, 0.05, 0.2]))
+    cfg["tcp"] = True
+    n = cfg["nhosts"]
+    ids = IdGen()
+    steps = [WARMUP()]
+    conns = {}
+    cid = 0
+    hosts = {}
+    for a in range(n):
+        for b in range(n):
+            if a != b and rng.random() < 0.8:
+                cid += 1
+                conns[cid] = (a, b)
+                hosts.setdefault(str(a), []).append(["tcp_connect", b, cid])
+    steps.append({"ctl": [], "hosts": hosts})
+    for _ in range((cfg["max_ms"] * 1000) // cfg["tick_us"] + 3):
+        steps.append({"ctl": [], "hosts": {}})
+    calls = (["partition", "partition_oneway", "partition_oneway", "repair", "repair_oneway", "repair_oneway"]
+             if flavour == "partition" else ["hold", "release"])
+    for k in range(rng.randrange(6, 16)):
+        ctl, hosts = [], {}
+        if rng.random() < 0.45:
+            a, b = rng.sample(range(n), 2)
+            ctl.append([rng.choice(calls), rand_sel(rng, a), rand_sel(rng, b)])
+        for c, (a, b) in conns.items():
+            for _ in range(rng.choice([0, 1, 1, 2])):
+                hosts.setdefault(str(a), []).append(["tcp_write", c, ids.next()])
+        if rng.random() < 0.2:
+            h = rng.randrange(n)
+            a, b = rng.sample(range(n), 2)
+            lst = hosts.setdefault(str(h), [])
+            lst.insert(rng.randrange(len(lst) + 1), [rng.choice(calls), rand_sel(rng, a), rand_sel(rng, b)])
+        steps.append({"ctl": ctl, "hosts": hosts})
+    if flavour == "hold":
+        steps.append({"ctl": [["release", {"re": "^h"}, {"re": "^h"}]], "hosts": {}})
+    for _ in range((cfg["max_ms"] * 1000) // cfg["tick_us"] + 4):
+        steps.append({"ctl": [], "hosts": {}})
+    return {"cfg": cfg, "steps": steps, "flavour": "tcp-" + flavour, "conns": {str(k): v for k, v in conns.items()}}
+
+
+def tcp_oracle(case, obs, flavour):
+    """C03 (flavour partition): a frame written while its direction is explicitly partitioned is never
+    read. C08 (flavour hold): every frame the writer got accepted is read exactly once, per connection
+    in write order, and none while its link is held."""
+    out = []
+    conns = {int(k): tuple(v) for k, v in case.get("conns", {}).items()}
+    wrote = {}
+    for st, h, what, cid, detail in obs.get("tcp_ev", []):
+        if what == "wrote":
+            i, nbytes = detail.split(":")
+            if nbytes == "8":
+                wrote[int(i)] = (cid, st)
+    tl = timeline(case, obs)
+    explicit, held = {}, {}
+    forbidden, parked = {}, {}
+    for ev in tl:
+        if ev[0] == "call":
+            _, name, a, b, t = ev
+            if name in ("partition", "repair"):
+                for d in ((a, b), (b, a)):
+                    explicit[d] = name == "partition"
+            elif name in ("partition_oneway", "repair_oneway"):
+                explicit[(a, b)] = name == "partition_oneway"
+            elif name in ("hold", "release"):
+                held[(min(a, b), max(a, b))] = name == "hold"
+                if name == "release":
+                    for i in [i for i, p in parked.items() if p == (min(a, b), max(a, b))]:
+                        del parked[i]
+        elif ev[0] == "tcp_write":
+            _, h, cid, i, step = ev
+            if i in wrote and cid in conns:
+                a, b = conns[cid]
+                if explicit.get((a, b)):
+                    forbidden[i] = "written at step %d while h%d->h%d was explicitly partitioned" % (step, a, b)
+                if held.get((min(a, b), max(a, b))):
+                    parked[i] = (min(a, b), max(a, b))
+    got = {}
+    order = {}
+    # reads are logged with the step in which they happened; held-state at that step:
+    held_at = {}
+    cur = {}
+    tick = case["cfg"]["tick_us"] * 1000
+    for st, h, i, frm in obs.get("tcp_recv", []):
+        got[i] = got.get(i, 0) + 1
+        order.setdefault((frm, h), []).append(i)
+        if i in forbidden:
+            out.append(("TCP frame %d read by h%d at step %d although it was %s" % (i, h, st, forbidden[i]), None))
+        if got[i] > 1:
+            out.append(("TCP frame %d read %d times" % (i, got[i]), None))
+    if flavour == "hold":
+        for i, (cid, st) in wrote.items():
+            if got.get(i, 0) != 1:
+                out.append(("TCP frame %d accepted by the writer at step %d was read %d times after release and drain" % (i, st, got.get(i, 0)), None))
+        for (frm, h), ids_ in order.items():
+            for cid, (a, b) in conns.items():
+                if (a, b) == (frm, h):
+                    seq = [i for i in ids_ if wrote.get(i, (None,))[0] == cid]
+                    if seq != sorted(seq):
+                        out.append(("TCP frames on connection %d (h%d->h%d) read out of write order: %s" % (cid, a, b, seq), None))
+    return out
 
 
 def case_signature(case):
